@@ -166,6 +166,28 @@ pub fn datagrams(fx: &Fixture, tier: Tier) -> Vec<(String, Vec<u8>)> {
             }
         }
     }
+    if tier == Tier::Thorough {
+        for prefix in 0..=255u8 {
+            for len in 1..=80usize {
+                let mut d: Vec<u8> = (0..len).map(|i| (i as u8).wrapping_mul(37).wrapping_add(prefix)).collect();
+                d[0] = prefix;
+                v.push((format!("prefix {:#04x} len {} pattern", prefix, len), d));
+            }
+        }
+        // every single-bit flip of every genuine datagram (the request's unsealed prefix high nibble excepted)
+        for (kind, _c2s, g) in &fx.genuine {
+            for i in 0..g.len() {
+                for b in 0..8u8 {
+                    if *kind == "request" && i == 0 && b >= 4 {
+                        continue;
+                    }
+                    let mut d = g.clone();
+                    d[i] ^= 1 << b;
+                    v.push((format!("genuine {} with bit {} of byte {} flipped", kind, b, i), d));
+                }
+            }
+        }
+    }
     // (b) genuine datagrams with the prefix / the sequence replaced, and truncated
     for (kind, _c2s, g) in &fx.genuine {
         for prefix in 0..=255u8 {
